@@ -197,5 +197,126 @@ units.append(emit_unit("comp.emit.upvalue-range", "h_emit_ss", ["janetc_emit_ss"
                        "more than 256 captured environments) are still read and written correctly, or a compile error is reported: " + ABCF,
                        [M_UPFIELDS], defines=["-DEM_MAXUP=0xFFFF"], assumes=[A_VM, A_ALLOC, A_SLOT, A_WR, A_LOADCONST, A_NOGROW]))
 
+
+# ================================================================ compile.c: calls and constructors (harness/comp_call.c)
+CALL_RC = ["janetc_emit_s:cl_emit_s_stub", "janetc_emit_ss:cl_emit_ss_stub", "janetc_emit_sss:cl_emit_sss_stub", "janetc_freeslot:cl_freeslot_stub",
+           "janet_sfree:cl_sfree_stub", "janetc_allocfar:cl_allocfar_stub", "janet_formatc:cl_formatc_stub", "janet_cstring:cl_cstring_stub"]
+A_EMITSTUB = ("janetc_emit_s/_ss/_sss replaced by recording stubs: a PUSH/PUSH_2/PUSH_3/PUSH_ARRAY appends its operands, in field order, to a ghost argument "
+              "stack exactly as vm.c pushes them; CALL/TAILCALL/MAKE_* are recorded with their operands (the emitters themselves: comp.emit.*)")
+A_FREESTUB = "janetc_freeslot / janet_sfree replaced by counters; janetc_allocfar by a counter of fresh registers (4000, 4001, ..)"
+
+
+def call_unit(uid, entry, functions, clause, mutants, rc, bound, props=("C02",), assumes=None, defines=None, unwind=12, tier="quick", timeout=300, extra=None):
+    u = {"id": uid, "props": list(props), "tier": tier, "class": "bounded", "bound": bound, "clause": clause,
+         "src": ["compile.c"], "link": ["wrap.c"], "link_keep": {"wrap.c": ["janet_wrap_nil", "janet_wrap_tuple", "janet_wrap_struct"]},
+         "harness": ["comp_call.c"], "entry": entry, "mode": "plain", "nanbox": False, "functions": functions,
+         "replace_calls": CALL_RC + rc, "checks": CHECKS + ["signed-overflow-check"], "unwind": unwind, "unwinding_assertions": True, "timeout": timeout,
+         "defines": defines or [], "assumes": [A_EMITSTUB, A_FREESTUB] + (assumes or []), "mutants": mutants}
+    if extra:
+        u.update(extra)
+    return u
+
+
+def MC(name, find, replace, expect, **kw):
+    return M(name, find, replace, expect, file="compile.c", **kw)
+
+
+units.append(call_unit("comp.call.pushslots", "h_pushslots", ["janetc_pushslots"],
+                       "janetc_pushslots: the emitted PUSH / PUSH_2 / PUSH_3 / PUSH_ARRAY instructions build exactly the argument vector - every argument once, strictly left "
+                       "to right, a spliced argument element-wise (PUSH_ARRAY) at its own position and never as a single value; the result is the argument count, or "
+                       "-1 - (number of unspliced arguments) when there is a splice",
+                       [MC("push2-operands-swapped", "            janetc_emit_ss(c, JOP_PUSH_2, slots[i], slots[i + 1], 0);\n            i += 2;\n            min_arity += 2;\n        } else if (slots[i + 2].flags",
+                           "            janetc_emit_ss(c, JOP_PUSH_2, slots[i + 1], slots[i], 0);\n            i += 2;\n            min_arity += 2;\n        } else if (slots[i + 2].flags", "left to right"),
+                        MC("splice-after-pair-skipped", "            janetc_emit_s(c, JOP_PUSH_ARRAY, slots[i + 2], 0);\n            i += 3;", "            i += 3;", "pushed exactly once|left to right"),
+                        MC("second-of-pair-not-checked-for-splice", "        } else if (slots[i + 1].flags & JANET_SLOT_SPLICED) {", "        } else if (0) {", "never pushed as a single value|spliced at its own"),
+                        MC("arity-sign", "    return has_splice ? (-1 - min_arity) : min_arity;", "    return has_splice ? (-min_arity) : min_arity;", "minimum argument count")],
+                       [], "argument vectors of 0..7 slots, each local or constant, spliced or not (every window of three consecutive slots the loop can see)"))
+units.append(call_unit("comp.call.call", "h_call", ["janetc_call", "janetc_pushslots", "has_spliced", "janetc_freeslots", "janetc_gettarget", "janetc_cslot", "janetc_error"],
+                       "janetc_call: unless the callee is a constant function whose optimizer accepts the unspliced arguments (then the optimizer's result is the value and no "
+                       "call is emitted), the arguments are pushed left to right, then exactly one call instruction naming the callee follows: TAILCALL only in tail position "
+                       "(and always there, except in the top-level scope) with the result marked returned, otherwise CALL writing the returned target slot (near hint or fresh "
+                       "register); a provably wrong argument count for a constant callee is a compile error and nothing else is; every argument slot and the vector are released once, after the call",
+                       [MC("tailcall-everywhere", "        if ((opts.flags & JANET_FOPTS_TAIL) &&\n                /* Prevent top level tail calls for better errors */\n                !(c->scope->flags & JANET_SCOPE_TOP)) {",
+                           "        if (!(c->scope->flags & JANET_SCOPE_TOP)) {", "only in tail position"),
+                        MC("call-operands-swapped", "janetc_emit_ss(c, JOP_CALL, retslot, fun, 1);", "janetc_emit_ss(c, JOP_CALL, fun, retslot, 1);", "names the callee|returned slot"),
+                        MC("specialise-spliced", "    if (fun.flags & JANET_SLOT_CONSTANT && !has_spliced(slots)) {", "    if (fun.flags & JANET_SLOT_CONSTANT) {", "only a constant function"),
+                        MC("min-arity-check-inverted", "                        if (min_arity < min) {", "                        if (min_arity > min) {", "provably wrong"),
+                        MC("slots-not-freed", "    janetc_freeslots(c, slots);\n    return retslot;\n}\n\nstatic JanetSlot janetc_maker", "    return retslot;\n}\n\nstatic JanetSlot janetc_maker", "released")],
+                       ["janetc_funopt:cl_funopt_stub"], "0..7 arguments (local/constant, spliced or not); callee a local or a constant of any of the 16 types; arities 0..100; any form options; any scope flags",
+                       props=("C02", "C15"),
+                       assumes=["janetc_funopt replaced by a stub returning no optimizer or one whose can_optimize/optimize are recording harness functions"]))
+units.append(call_unit("comp.call.toslots", "h_toslots", ["janetc_toslots", "janetc_fopts_default"],
+                       "janetc_toslots: the argument forms are evaluated strictly left to right, each exactly once, for their value (not in tail position, no target, not dropped, "
+                       "splice allowed); slot k of the result is the value of form k",
+                       [MC("reverse-order", "    for (i = 0; i < len; i++) {\n        janet_v_push(ret, janetc_value(subopts, vals[i]));", "    for (i = len - 1; i >= 0; i--) {\n        janet_v_push(ret, janetc_value(subopts, vals[i]));", "left to right"),
+                        MC("tail-flag-leaks", "    subopts.flags |= JANET_FOPTS_ACCEPT_SPLICE;\n    for (i = 0; i < len; i++) {", "    subopts.flags |= JANET_FOPTS_ACCEPT_SPLICE | JANET_FOPTS_TAIL;\n    for (i = 0; i < len; i++) {", "not in tail position")],
+                       ["janetc_value:cl_value_stub", "janet_v_grow:cl_grow_stub"], "0..7 argument forms; the result vector is allocated once with room for all",
+                       assumes=["janetc_value replaced by a stub that checks the order and options of its calls and returns a fresh slot numbered by the form"]))
+units.append(call_unit("comp.call.toslotskv", "h_toslotskv", ["janetc_toslotskv", "janetc_fopts_default"],
+                       "janetc_toslotskv (struct and table literals): for every present entry of the literal, in table order, the key is evaluated and then immediately its value; "
+                       "the result vector is key, value, key, value ... in that order; empty buckets contribute nothing",
+                       [MC("value-before-key", "        janet_v_push(ret, janetc_value(subopts, kvs[i].key));\n        janet_v_push(ret, janetc_value(subopts, kvs[i].value));", "        janet_v_push(ret, janetc_value(subopts, kvs[i].value));\n        janet_v_push(ret, janetc_value(subopts, kvs[i].key));", "immediately before"),
+                        MC("nil-keys-kept", "        if (janet_checktype(kvs[i].key, JANET_NIL)) continue;\n        janet_v_push(ret, janetc_value(subopts, kvs[i].key));", "        janet_v_push(ret, janetc_value(subopts, kvs[i].key));", "nothing for empty buckets|only present")],
+                       ["janetc_value:cl_value_kv_stub", "janet_v_grow:cl_grow_stub", "janet_dictionary_view:cl_dictview_stub"], "literal with 4 buckets, each present or empty",
+                       assumes=["janetc_value replaced by a recording stub; janet_dictionary_view by a stub handing out the 4-bucket table"]))
+units.append(call_unit("comp.call.maker", "h_maker", ["janetc_maker", "janetc_pushslots", "janetc_freeslots", "janetc_gettarget", "janetc_cslot"],
+                       "janetc_maker (array, tuple, struct, table, buffer, string constructors): the elements are pushed left to right (splices at their position), then exactly "
+                       "the requested MAKE_* instruction writes the returned target slot; only tuples and structs whose elements are all unspliced constants are folded into "
+                       "a constant (element k = constant k, pair k = constants 2k, 2k+1) - arrays, tables and buffers are built afresh on every evaluation",
+                       [MC("arrays-folded", "    } else if (can_inline && (op == JOP_MAKE_TUPLE)) {", "    } else if (can_inline && (op == JOP_MAKE_TUPLE || op == JOP_MAKE_ARRAY)) {", "only immutable"),
+                        MC("spliced-constant-folded", "        if (!(slots[i].flags & JANET_SLOT_CONSTANT) ||\n                (slots[i].flags & JANET_SLOT_SPLICED)) {", "        if (!(slots[i].flags & JANET_SLOT_CONSTANT)) {", "unspliced constant"),
+                        MC("struct-key-value-swapped", "            janet_struct_put(st, k, v);", "            janet_struct_put(st, v, k);", "pair k"),
+                        MC("no-write-flag", "        janetc_emit_s(c, op, retslot, 1);\n    }\n\n    return retslot;", "        janetc_emit_s(c, op, retslot, 0);\n    }\n\n    return retslot;", "written to the returned slot")],
+                       ["janet_tuple_begin:cl_tuple_begin_stub", "janet_tuple_end:cl_tuple_end_stub", "janet_struct_begin:cl_struct_begin_stub", "janet_struct_put:cl_struct_put_stub", "janet_struct_end:cl_struct_end_stub"],
+                       "0..7 element slots (even count for struct/table), local or constant, spliced or not; the seven MAKE_* opcodes; any form options",
+                       assumes=["janet_tuple_begin/_end, janet_struct_begin/_put/_end replaced by recording stubs over static storage"]))
+units.append(call_unit("comp.call.value-call", "h_value_call", ["janetc_value"],
+                       "janetc_value on a call form (f a1 .. an): the callee is evaluated first, then the arguments (janetc_toslots), then the call is compiled from exactly these "
+                       "with the form's own context (tail position, hint, drop); the callee's slot is released after the call; in tail position the value is returned, with a hint it is "
+                       "delivered in the hint slot; the value of a call is never spliced; source position and recursion budget of the enclosing form are restored",
+                       [MC("arguments-before-callee", "                    JanetSlot head = janetc_value(subopts, tup[0]);\n                    subopts.flags = JANET_FUNCTION | JANET_CFUNCTION;\n                    ret = janetc_call(opts, janetc_toslots(c, tup + 1, janet_tuple_length(tup) - 1), head);",
+                           "                    JanetSlot *args_first = janetc_toslots(c, tup + 1, janet_tuple_length(tup) - 1);\n                    JanetSlot head = janetc_value(subopts, tup[0]);\n                    ret = janetc_call(opts, args_first, head);", "callee is evaluated before"),
+                        MC("call-loses-tail-context", "                    ret = janetc_call(opts, janetc_toslots(c, tup + 1, janet_tuple_length(tup) - 1), head);", "                    ret = janetc_call(subopts, janetc_toslots(c, tup + 1, janet_tuple_length(tup) - 1), head);", "inherits the context"),
+                        MC("mapping-not-restored", "    c->current_mapping = last_mapping;\n    c->recursion_guard++;\n    return ret;", "    c->recursion_guard++;\n    return ret;", "source position")],
+                       ["macroexpand1:cl_macroexpand1_stub", "janetc_resolve:cl_resolve_stub", "janetc_toslots:cl_toslots_stub", "janetc_call:cl_call_stub", "janetc_return:cl_return_stub", "janetc_copy:cl_copy_stub"],
+                       "call forms with a symbol as callee and 0..3 arguments; any form options", unwind=12,
+                       assumes=["macroexpand1 replaced by its contract for a form that is neither macro call nor special (moves the source cursor, returns 0)",
+                                "janetc_resolve, janetc_toslots, janetc_call, janetc_return, janetc_copy replaced by recording stubs (their contracts: comp.resolve.*, comp.call.toslots, comp.call.call, comp.emit.copy)"]))
+units.append(call_unit("comp.call.toslots.mutation-order", "h_toslots", ["janetc_toslots"],
+                       "left-to-right evaluation of arguments also when an argument reads a mutable local variable and a LATER argument assigns it: the slot handed on for the earlier "
+                       "argument must still denote the value it had when it was evaluated (it must not be the variable's own register)",
+                       [MC("reverse-order", "    for (i = 0; i < len; i++) {\n        janet_v_push(ret, janetc_value(subopts, vals[i]));", "    for (i = len - 1; i >= 0; i--) {\n        janet_v_push(ret, janetc_value(subopts, vals[i]));", "left to right")],
+                       ["janetc_value:cl_value_stub", "janet_v_grow:cl_grow_stub"], "0..7 argument forms", defines=["-DCL_MUTATION_ORDER"],
+                       assumes=["janetc_value replaced by a stub: a form may be a reference to the mutable local in register 77 (its slot is that register, as janetc_resolve returns it) and a later form may assign register 77"]))
+
+
+# ================================================================ compile.c: symbol resolution (harness/comp_resolve.c)
+units.append({
+    "id": "comp.resolve", "props": ["C02"], "tier": "quick", "class": "bounded",
+    "bound": "chain of 1..3 scopes (root function scope; each further scope a function or a block, dead-code or not), 0..2 bindings per scope over two symbols and ended-block entries, "
+             "bindings that are registers 0..0xFFFF, constants or reference arrays, 0..2 well-formed environment references already present per inner function scope",
+    "clause": "janetc_resolve: a symbol denotes its innermost enclosing binding (latest in a scope; the environment is not consulted - shadowing); a constant or reference binding is the same "
+              "everywhere; a binding of the same function is a frame register; a binding of an enclosing function becomes an upvalue whose environment index designates, by the interpreter's "
+              "closure rule Env(F,j), exactly the frame of the defining function, which is marked as captured, with the register recorded and the binding kept; existing environment references "
+              "keep index and meaning and only function scopes get any; dead-code scopes capture nothing; an unbound symbol is the global (constant for def/macro, reference array for var and "
+              "dynamic bindings, only var assignable), deprecations are linted, and no binding at all is a compile error",
+    "src": ["compile.c"], "link": ["wrap.c"], "link_keep": {"wrap.c": ["janet_wrap_nil", "janet_wrap_keyword", "janet_wrap_symbol"]},
+    "harness": ["comp_resolve.c"], "entry": "h_resolve", "mode": "plain", "nanbox": False,
+    "functions": ["janetc_resolve", "janetc_cslot", "janetc_error"],
+    "replace_calls": ["janet_v_grow:rs_grow_stub", "janetc_regalloc_touch:rs_touch_stub", "janet_formatc:rs_formatc_stub", "janet_resolve_ext:rs_resolve_ext_stub",
+                      "janet_table_get:rs_table_get_stub", "janet_csymbol:rs_csymbol_stub", "lookup_missing:rs_lookup_missing_stub", "janetc_lintf:rs_lintf_stub"],
+    "checks": CHECKS + ["signed-overflow-check"], "unwind": 6, "unwinding_assertions": True, "timeout": 600, "defines": [],
+    "assumes": ["janet_resolve_ext / janet_table_get (missing-symbol handler) / lookup_missing replaced by stubs returning an arbitrary binding, handler value and handler result",
+                "janetc_regalloc_touch replaced by a recorder; janet_v_grow by a stub that hands a preallocated 4-entry block to an empty environment vector",
+                "representation invariant of the scopes: existing environment references designate a frame (Env defined); the root scope is a function scope and has no references"],
+    "mutants": [MC("first-binding-wins", "        for (i = len - 1; i >= 0; i--) {\n            pair = scope->syms + i;", "        for (i = 0; i < len; i++) {\n            pair = scope->syms + i;", "innermost binding wins|same in every context"),
+                MC("function-boundary-ignored", "        if (scope->flags & JANET_SCOPE_FUNCTION)\n            foundlocal = 0;", "", "upvalue of the current function|frame of the function"),
+                MC("env-flag-not-set", "    scope->flags |= JANET_SCOPE_ENV;\n", "", "marked as having a captured frame"),
+                MC("binding-not-kept", "    pair->keep = 1;\n", "", "captured binding is kept"),
+                MC("env-dedupe-compares-position", "                if (scope->envs[j].envindex == envindex) {", "                if (j == envindex) {", "frame of the function|upvalue of the current"),
+                MC("parent-frame-marker-wrong", "    int32_t envindex = -1;\n    while (scope) {", "    int32_t envindex = 0;\n    while (scope) {", "frame of the function"),
+                MC("dead-code-captures", "    if (unused || foundlocal) {", "    if (foundlocal) {", "captures nothing"),
+                MC("var-not-mutable", "                ret.flags |= JANET_SLOT_REF | JANET_SLOT_NAMED | JANET_SLOT_MUTABLE | JANET_SLOTTYPE_ANY;", "                ret.flags |= JANET_SLOT_REF | JANET_SLOT_NAMED | JANET_SLOTTYPE_ANY;", "only a var is assignable")]})
+
 json.dump({"units": units}, open(os.path.join(VERIF, "units", "C02_emit.json"), "w"), indent=1)
 print("wrote", len(units), "units")
